@@ -84,6 +84,8 @@ namespace OpenMEEG {
         mesh_name.clear();
         vertex_triangles.clear();
         outermost_ = false;
+        current_barrier_ = false;
+        isolated_ = false;
     }
 
     /// Update triangles area/normal, update vertex triangles and vertices normals if needed
